@@ -16,8 +16,10 @@ CHECKS = {
         technique='path-sensitive typestate analysis over MIR (inductive invariant), call-graph and drop-path rules',
         text='Static inductive-invariant check: for every control-flow path of every lock-protected state function '
              '(helpers inlined), and for every node it touches, linked(final poll state) equals queue membership '
-             'after the path\'s queue operations, given the same at entry; plus drop-reaches-unlink, link-only-when-'
-             'pinned, no-lock-bypass, address-stability and panic-site rules. Holds for all histories and schedules '
+             'after the path\'s queue operations, given the same at entry; plus drop-reaches-unlink, Ready-leaves-unlinked, '
+             'link-only-when-pinned, no-lock-bypass, state-layer layering (nobody outside the state functions mutates '
+             'lock-protected state), address-stability, handle-restored-on-Pending and a classification of all 70 '
+             'explicit panic sites (unclassified site = violation). Holds for all histories and schedules '
              'because each obligation is about all paths of an atomic transition, not about sampled runs.',
         note='List/heap link surgery is assumed via queue-op summaries; panics raised by user code inside the lock '
              'are outside the documented contract.', ref='5-C01'),
